@@ -6,10 +6,10 @@ ROOT = os.path.dirname(os.path.dirname(os.path.abspath(__file__)))
 plan = json.load(open(os.path.join(ROOT, "contracts", "plan.json")))
 ids = sys.argv[1:] or sorted(os.listdir(os.path.join(ROOT, "seeded")))
 confirm = {}
-for lg in ("/var/tmp/seedconfirm.log", "/var/tmp/seedconfirm2.log", "/var/tmp/seedconfirm3.log", "/var/tmp/seedconfirm4.log"):
+for lg in ("/var/tmp/seedconfirm.log", "/var/tmp/seedconfirm2.log", "/var/tmp/seedconfirm3.log", "/var/tmp/seedconfirm4.log", "/var/tmp/seedconfirm5.log"):
     if os.path.exists(lg):
         for ln in open(lg):
-            m = re.match(r"RESULT (C\d\d(?:r[234])?)_([AB]) (.*)", ln)
+            m = re.match(r"RESULT (C\d\d(?:r[2345])?)_([AB]) (.*)", ln)
             if m: confirm[f"{m.group(1)}-{m.group(2)}"] = m.group(3).strip()
 for sid in ids:
     d = os.path.join(ROOT, "seeded", sid)
